@@ -227,10 +227,64 @@ def check_cum(cells, args, status, res, notes):
     return fails
 
 
+def py_to_cumulative(cells):
+    """Independent cumulation of an incremental triangle (never the library's basis.py): per slice and
+    period, in evaluation order, running totals in FRESH objects; `earned_premium` carries the latest
+    value.  None when the chain is broken / key sets differ (that is C04's business)."""
+    from bermuda import CumulativeCell
+
+    rows = {}
+    for c in cells:
+        rows.setdefault((c.metadata, c.period_start, c.period_end), []).append(c)
+    out = []
+    for (m, ps, pe), row in rows.items():
+        row = sorted(row, key=lambda c: (c.evaluation_date, c.prev_evaluation_date))
+        if row[0].prev_evaluation_date + datetime.timedelta(days=1) != ps:
+            return None
+        cur, cur_ev = None, None
+        for c in row:
+            if cur is None:
+                cur = {k: (v.copy() if isinstance(v, np.ndarray) else v) for k, v in c.values.items()}
+            else:
+                if c.prev_evaluation_date != cur_ev or set(c.values) != set(cur) or any(v is None for v in c.values.values()):
+                    return None
+                cur = {k: (c.values[k] if k == "earned_premium" else cur[k] + c.values[k]) for k in cur}
+            if any(v is None for v in cur.values()):
+                return None
+            cur_ev = c.evaluation_date
+            out.append(CumulativeCell(period_start=ps, period_end=pe, evaluation_date=c.evaluation_date, metadata=m,
+                                      values={k: (v.copy() if isinstance(v, np.ndarray) else v) for k, v in cur.items()}))
+    return out
+
+
+def py_to_incremental(cells):
+    """Independent differencing of a cumulative triangle -> canonical forms of the incremental cells."""
+    from bermuda import IncrementalCell
+
+    rows = {}
+    for c in cells:
+        rows.setdefault((c.metadata, c.period_start, c.period_end), []).append(c)
+    out = []
+    for (m, ps, pe), row in rows.items():
+        row = sorted(row, key=lambda c: c.evaluation_date)
+        prev_c = None
+        for c in row:
+            if prev_c is None:
+                vals, prev = dict(c.values), ps - datetime.timedelta(days=1)
+            else:
+                if set(c.values) != set(prev_c.values):
+                    return None
+                vals = {k: (c.values[k] if k == "earned_premium" else c.values[k] - prev_c.values[k]) for k in c.values}
+                prev = prev_c.evaluation_date
+            out.append(IncrementalCell(period_start=ps, period_end=pe, prev_evaluation_date=prev,
+                                       evaluation_date=c.evaluation_date, metadata=m, values=vals))
+            prev_c = c
+    return out
+
+
 def aggregate_oracle(tcells, args, status, res, notes):
     """C08 judged on the implementation's result; only in-domain cases are judged."""
     from bermuda import Triangle
-    from bermuda.utils.basis import to_cumulative, to_incremental
 
     if not tcells:                             # the empty triangle aggregates to the empty triangle (F22)
         if status == "err":
@@ -246,25 +300,28 @@ def aggregate_oracle(tcells, args, status, res, notes):
     inc = type(tcells[0]).__name__ == "IncrementalCell"
     if not inc:
         return check_cum(tcells, args, status, res, notes)
-    # incremental: the result is the incremental form of the aggregated cumulative triangle
-    try:
-        cum = to_cumulative(Triangle(tcells))
-    except Exception:  # noqa: BLE001  (broken chain: C04's business)
+    # incremental: the result is the incremental form of the aggregated cumulative triangle.  The
+    # cumulative form and the final differencing are computed HERE (independently of basis.py)
+    cum_cells = py_to_cumulative(tcells)
+    if cum_cells is None:                      # broken chain / inconsistent keys: C04's business
         return []
-    st2, res2 = S.run_impl(lambda: cum.aggregate(**args))
+    cum = Triangle(cum_cells)
+    st2, res2 = S.run_impl(lambda: cum.aggregate(**args))     # cumulative path: does not touch basis.py
     fails = check_cum(list(cum.cells), args, st2, res2, notes)
     if st2 == "err":
         if status != "err" or cerr(res) != cerr(res2):
             fails.append("incremental input: refusal differs from that of the cumulative form")
         return fails
-    try:
-        want = to_incremental(Triangle(res2))
-    except Exception:  # noqa: BLE001
+    want = py_to_incremental(res2)
+    if want is None:
         return fails
     if status == "err":
         fails.append(f"incremental input refused with {type(res).__name__} although its cumulative form aggregates")
-    elif sorted(map(repr, map(canon_cell, res))) != sorted(map(repr, map(canon_cell, want.cells))):
-        fails.append("aggregate(incremental x) != to_incremental(aggregate(to_cumulative x))")
+    elif sorted(map(repr, map(canon_cell, res))) != sorted(map(repr, map(canon_cell, want))):
+        got = {(c.period_start, c.evaluation_date): dict(c.values) for c in res}
+        exp = {(c.period_start, c.evaluation_date): dict(c.values) for c in want}
+        diff = [(k, got.get(k), exp.get(k)) for k in sorted(set(got) | set(exp), key=str) if repr(got.get(k)) != repr(exp.get(k))][:2]
+        fails.append(f"aggregate(incremental x) != incremental form of aggregate(cumulative form of x): (coordinate, got, want) {diff}")
     return fails
 
 
@@ -287,14 +344,16 @@ class AggGen(S.SummGen):
         ms, slice_diff = self.metas(n_slices, None)
         layout = "daily" if kind == "daily" else r.choice(["regular", "regular", "ragged", "ragged", "holey", "irregular", "single_period"])
         res = r.choice([1, 3, 6, 12])
-        rows, res = self.coords(layout, res, r.randint(2, 6), r.randint(1, 4))
-        fields = r.sample(S.ADDITIVE, r.randint(1, 3))
         vk = r.choice(["int", "int", "float", "arr_int", "arr_float"])
+        n_lags = r.randint(3, 5) if (basis == "inc" and (vk.startswith("arr") or r.random() < 0.5)) else r.randint(1, 4)
+        rows, res = self.coords(layout, res, r.randint(2, 6), n_lags)
+        fields = r.sample(S.ADDITIVE, r.randint(1, 3))
         n_samples = r.choice([2, 3])
         cells = []
         for m in ms:
             rows_s = rows if r.random() < 0.8 else rows[r.randint(0, len(rows) - 1):]
             sf = fields if r.random() < 0.7 else r.sample(fields, r.randint(1, len(fields)))
+            flavour = r.choice(["ts", "dt"]) if (basis == "cum" and r.random() < 0.08) else "date"
             for ps, pe, evs in rows_s:
                 prev = ps - datetime.timedelta(days=1)
                 rf = sf if (basis == "inc" or r.random() < 0.85) else r.sample(sf, r.randint(1, len(sf)))
@@ -305,7 +364,7 @@ class AggGen(S.SummGen):
                                                      evaluation_date=e, values=vals, metadata=m))
                         prev = e
                     else:
-                        cells.append(CumulativeCell(period_start=ps, period_end=pe, evaluation_date=e, values=vals, metadata=m))
+                        cells.append(S.mk_cell(CumulativeCell, flavour, ps, pe, e, vals, m))
         lo = min(c.period_start for c in cells)
         hi = max(c.evaluation_date for c in cells)
         evs_all = sorted({c.evaluation_date for c in cells})
@@ -368,6 +427,20 @@ def directed_cases():
     two = q + [CumulativeCell(D(2020, 1, 1), D(2020, 3, 31), D(2020, 12, 31), {"paid_loss": 5}, Metadata(country="US"))]
     info = {"basis": "cum", "layout": "directed", "n_cells": 0, "slice_diff": None}
     out = []
+    from bermuda import IncrementalCell
+    evs = [D(2020, 6, 30), D(2020, 9, 30), D(2020, 12, 31), D(2021, 3, 31)]
+    for arr in (True, False):
+        inc = []
+        for qi, (ps, pe) in enumerate(((D(2020, 1, 1), D(2020, 3, 31)), (D(2020, 4, 1), D(2020, 6, 30)))):
+            prev = ps - datetime.timedelta(days=1)
+            for ei, e in enumerate(evs):
+                b = 100 * (qi + 1) + 10 * ei
+                inc.append(IncrementalCell(period_start=ps, period_end=pe, prev_evaluation_date=prev, evaluation_date=e,
+                                           values={"paid_loss": np.array([b, b + 1, b + 2]) if arr else b}))
+                prev = e
+        out.append((inc, {**base, "period_resolution": (6, "month"), "eval_resolution": None},
+                    {**info, "basis": "inc", "kind": "directed:incremental-arrays" if arr else "directed:incremental-scalars",
+                     "period_resolution": (6, "month"), "eval_resolution": None}))
     for cells, pres, eres, kind in ((q, (1, "year"), (1, "year"), "directed:F24"), (two, (1, "year"), (1, "year"), "directed:F24-two-slices"),
                                     ([], (1, "year"), None, "directed:F22"), ([], None, (1, "quarter"), "directed:F22")):
         out.append((cells, {**base, "period_resolution": pres, "eval_resolution": eres},
@@ -425,6 +498,10 @@ def run(ctx):
         tcells = list(t.cells)
         n_notes = len(notes)
         fails = aggregate_oracle(tcells, args, status, res, notes)
+        if S.dates_not_plain(tcells) or (status == "ok" and S.dates_not_plain(res)):
+            fails.insert(0, "a cell stores a date that is not a plain datetime.date (Cell must normalise Timestamp/datetime inputs)")
+        if info["basis"] == "inc" and info.get("values", "").startswith("arr") and len({c.evaluation_date for c in tcells}) >= 3:
+            ctx.hist("incremental arrays with >= 3 evaluation dates")
         if "emptied-slice" in notes[n_notes:]:
             ctx.hist("slice-emptied-by-eval-grid")
         ctx.hist(f"kind:{info['kind']}/{info['basis']}")
